@@ -133,13 +133,16 @@ func (s *Stream) StreamID() uint32 {
 * if current's size is not enough, which will block until the read buffer's size greater than minSize.
  */
 func (s *Stream) readMore(minSize int) (err error) {
+	// the state must be sampled before the pending data is moved: data which arrives together with the peer's close
+	// right after the move would otherwise be hidden behind an end of stream.
+	isOpen := s.IsOpen()
 	s.pendingData.moveTo(s.recvBuf)
 	recvLen := s.recvBuf.Len()
 	if recvLen >= minSize {
 		return nil
 	}
 
-	if recvLen == 0 && !s.IsOpen() {
+	if recvLen == 0 && !isOpen {
 		return ErrEndOfStream
 	}
 
